@@ -493,6 +493,129 @@ CHECKS['C01']['note'] = (
     'is the BLAS predicate, regime and leaf bookkeeping and the statement-level element models. Rounding, BLAS and NumPy ufunc '
     'internals are modelled as exact entry-wise maps; identity aliasing only (elements sharing part objects are outside).')
 
+# ---- round 3 wording (after the independent audits) ----
+CHECKS['C18']['text'] = (
+    '38 theorems in Props/C18.lean, for every n and input; field-level ones over any field with a primitive n-th root of unity. '
+    'Grid/table arithmetic over Q: recip_grid_uniform, recip_point_formula, recip_halfcomplex_stride/_prefix, '
+    'recip_contains_zero_iff, halfcomplex_shape_roundtrip, recip_real_roundtrip, interp_freqs_match_grid; tie to the EXTRACTED '
+    'source tables: recip_table_matches_source, freq_table_matches_source. Field-level: dft_inverse, dft_hermitian, '
+    'halfcomplex_roundtrip, ft_inverse and ft_forward_is_fourier_sum (one axis, full grid, arbitrary non-vanishing kernel factors, '
+    'abstract phase function), ft_halfcomplex_inverse (one halved axis), ft_sep_1d (the executed n-d definition equals the one-axis '
+    'maps on 1-d arrays). Case splits over modelled flags: dft_backends_agree, dft_range_matches_output, '
+    'pyfftw_planning_guards_cover_both_arrays (a Boolean fact about the guards; FFTW behaviour is an assumption compared with the '
+    'real library), ft_status_partial. Exponent arithmetic mod 2: phase_factorisation, pre_factor_*, ft_inverse_factors. Wavelets '
+    '(ODL\'s part): raveled_slices_layout/_roundtrip (about precompute_raveled_slices), crop_rule(_rejects), pad_table_sound/'
+    '_documented, inner_weight_uniform. CONDITIONAL on leaf hypotheses: wavelet_adjoint_of_leaf_hyps (W an l2 isometry with '
+    'two-sided inverse), crop_rule (admissible waverecn length). Sensitivity theorems about old variants; F18e counterexample. '
+    'Executed definitions with NO theorem: dftForwardNd/dftInverseNd/ftForwardNd/ftInverseNd (staged, incl. half-complex real-part '
+    'steps), applyAxes for > 1 axis, kernelAmp/sincF (Float), padMode, cropShape. Not proved: Gaussian convergence (measured: '
+    'order ~4), PyWavelets PR/orthogonality (assumed, measured).')
+CHECKS['C13']['technique'] = 'Lean 4 proof over AST-extracted stencil tables + pinned hand-written wiring + exact differential correspondence'
+CHECKS['C13']['text'] = (
+    '23 theorems about the Lean model over any field (incl. C) and ALL axis lengths; none conditional on leaf hypotheses: '
+    'adj_involutive; size_ok_iff; fd_eq_stencil_ext (finite_diff row = the method\'s textbook stencil on the array extended by the '
+    'INDEPENDENTLY defined rule ruleOf p, for constant/symmetric/periodic/order0/order1 x 3 methods and central order2); '
+    'symmetric_is_replicate_not_reflect (symmetric is order0 in the generated tables; the reflect reading refuted); '
+    'order2_edge_rule / order2_forward_edge_differs; adj_tables_transposed, fd_adjoint_transpose, fd_adjoint_entry, '
+    'fd_adjoint_hermitian (all 30 leaves: the PLAIN sum identity sum g(Df) = -sum f(D\'g) by summation by parts + a verified corner '
+    'checker decided on the generated tables); fd_map; fd_affine, pd_affine; pd_adjoint, grad_div_adjoint, div_grad_adjoint; '
+    'laplacian_*selfadjoint; pd_eq_stencil_ext, laplacian_eq_second_difference; op_adjoint_involutive (pad_const = 0 only); '
+    'affine_instances_have_no_adjoint. Regenerated from diff_ops.py every run: interior bands, the 30 boundary leaves, size guards, '
+    '_ADJ_METHOD/_ADJ_PADDING, supported lists, modes Laplacian refuses, per-class linear-rule and adjoint-guard flags. NOT '
+    'regenerated (hand-written in the model and PINNED as normalised text; a change is a broken obligation): prologue/epilogue of '
+    'finite_diff, /dx, N-d line-wise action, Gradient/Divergence/Laplacian accumulation, which instance .adjoint/.derivative build.')
+CHECKS['C13']['note'] = (
+    'translator tools/extract/finite_diff.py (tables + tools/extract/finite_diff_pins.json) and exact correspondence: full matrices '
+    'and offsets of finite_diff for method x pad x n=1..9 (13 thorough), direct call forms (array-like, layouts, negative axis, '
+    'out=None, N-d), the four classes on 1-3 d uniform_discr incl. shifted, nodes_on_bdry, other-dtype range, length-1 axes, '
+    'real and complex. Adjoint = transpose is claimed, proved (plain sums) and checked ONLY for uniformly weighted spaces; the '
+    'step from plain sums to the space inner product is an argument, not a Lean statement (nodes_on_bdry / weighted power spaces: '
+    'open C05 findings F60, F56). symmetric = edge-repeating mirror as coded, tested and (since cebeffe) documented; ndim <= 3; '
+    'integer dtypes outside the quantifier.')
+CHECKS['C14']['technique'] = ('Lean 4 proof over an executable rational model (1-d partition; n-d as separate grid and set paths for '
+                              'insert/append/squeeze) + correspondence + offset table by translator')
+CHECKS['C14']['text'] = (
+    '36 theorems (32 about the current code, 4 sensitivity theorems about old variants of repaired defects), all n, all rationals; '
+    'the code\'s tolerances are universally quantified with side conditions the code\'s values satisfy. 1-d tiling: bdry_ends, '
+    'bdry_strict_mono, node_in_own_cell, cell_size_is_width, cell_sizes_sum, bdry_fraction_formula; uniform (n >= 2, all 4 '
+    'flags): uniform_node_placement, uniform_side_times_count (+ _code instance), uniform_valid; nonuniform_limits, '
+    'fromgrid_limits; index_correct, index_degenerate; 1-d indexing: getitem_slice_general (None/negative/clamped bounds, step >= '
+    '1), getitem_slice/_cells/_int (incl. rejection outside [-n, n))/_full/_list, wrap_index_spec; uniform_spec_agree, '
+    'flags_two_normalisations_agree; grid and set paths aligned: insert_two_paths_aligned, squeeze_two_paths_aligned; n-d '
+    'model-structure statements on the aligned view (hold by construction of the list model): insert_append_cells, squeeze_cells, '
+    'byaxis_cells, getitem_nd; translator tripwire extracted_table_is_model; by unfolding: wf_iff_valid, index_outside. Executed '
+    'without theorem: completeAxis on inconsistent input, squeeze with an axis list, byaxisSlice, negative-step slices, unsorted / '
+    'repeated lists, n-d getItem and byaxis grid/set alignment.')
+CHECKS['C15']['text'] = (
+    '20 theorems, none conditional on leaf hypotheses: nearest = closest node (right ties, clamped); per-axis nearest = nearest '
+    'interpolator and the all-nearest dispatch changes no value; barycentric weights, multilinear blend, node exactness, affine '
+    'exactness inside the hull, coded zero extension (all dimensions, n >= 2 strictly increasing coordinates, real/complex values); '
+    'the edge/weight programs, nearest rule, node-search constants and the dtype cast guard/rule are EXTRACTED each run and proved '
+    'equal to / harmless for the model; sampling_paths_collocate (the executed sampling wrapper model Sampling.sample: dispatch, '
+    'reshape-or-assign, squeeze/reshape/broadcast delivers the callable\'s values for every return-shape form and path on '
+    'mesh/array input). Statements about the model\'s own tables/combinators only: call_convention_invariant, '
+    'input_classification, value_dtypes_ok, point_cast_sensitivity. Executed and tied without theorem: single-point sampling, '
+    'corner-loop order vs NumPy indexing, classifyArrayInput. Oracle only: vectorize, ufunc and tensor-valued sampling, '
+    'Resampling / linear_deform point computation, single-node axes (open C15-F6..F6d).')
+CHECKS['C16']['text'] = (
+    '24 theorems over all sizes, offsets, contents; none conditional on leaf hypotheses. One axis: pad_eq_nppad, '
+    'order1_linear_extrapolation, resize_intersection, crop_extend_id, guards over the GENERATED guard table, offset_range_checked, '
+    'adjoint_needs_zero_padconst, adjoint_transpose, weighted_adjoint (adjoint identity for the CODE\'S scaling with constant/array '
+    'weightings and boundary fractions), linear_when_padconst_zero. n axes: forward_nd_eq_reference (= reference applied axis by axis '
+    'on the whole box), axis_order_irrelevant, adjoint_transpose_nd, weighted_adjoint_nd, nd_axes_accept_iff, nd_accepts_iff. '
+    'Operator, per axis: range_cell_unchanged, range_grid_min, range_grid_aligned, range_covers_domain, '
+    'offset_from_spaces_aligned/_roundtrip; supported_modes. overlap-copied and crop-extend have no n-d theorem; n-d statements '
+    'are about the per-axis composition (fibre view of NumPy slicing). Open findings C16-F7 (array-weighted domain cannot be '
+    'resized), C16-F8 (order1 on unsigned dtypes).')
+CHECKS['C16']['note'] = (
+    'Generated from source each run (tools/extract/padslices.py): slice arithmetic, guard table, pad lengths, skip condition. '
+    'Hand-modelled and tied by exact correspondence only: the statement sequence of _apply_padding after the guards, fill / offset / '
+    'pad_const checks, _resize_discr, _offset_from_spaces (exact arithmetic instead of round/isclose), the adjoint scaling. Every '
+    'definition the theorems are about (resizeCore, resizeAxes/resizeND, npPad, refAxes, offsetFromAxes, opAdjointW, opAdjointND) '
+    'is executed by the driver against the real code. Executed without theorem: np.can_cast refusal (not modelled), dtype '
+    'casting / out, inverse, derivative. Exact on dyadic data; uint8 compared mod 256.')
+CHECKS['C20']['text'] = (
+    '38 theorems. PROVED LAWS (28): == is an equivalence and equal objects hash equally, in full, for the 10 modelled weighting '
+    'classes, interval products, grids, partitions, tensor / discretized / nested product spaces and FiniteSet (int/str atoms); '
+    'the same for SetUnion / SetIntersection / CartesianProduct over non-composite members (hash theorem restricted to '
+    'non-FiniteSet members and duplicate-free member tuples); castVal_idem, real_complex_involution, astype_round_trip, '
+    'astype_byaxis_commute, pspace_index_list_int, dtype_tables_coherent (tables regenerated by the translator and independently '
+    'checked against NumPy); counterexample / sensitivity theorems. EXECUTABLE SPECIFICATION WITH BRANCH LEMMAS ONLY (10; these '
+    'unfold hand-written definitions: for element(), astype, real/complex spaces, byaxis and indexing the level reached is '
+    'correspondence of that specification with the real code on the zoo): mem_iff_space_eq, element_idem, element_new_in_space, '
+    'element_values, pspace_element_length, astype_descr, byaxis_descr_partial, byaxis_nonnumeric, pspace_index_descr_partial, '
+    'pspace_astype_descr. Oracle only: composites with FiniteSet or nested members, MatrixWeighting, byte-swapped dtypes, '
+    'non-function callables, array FiniteSet atoms, byaxis_in, indexing vs asarray. Open findings C20-F4, F6, F7, F8, F9, F10, F12.')
+CHECKS['C20']['note'] += (' The zoo is a fixed recipe list plus random one-field variants: "all pairs / all triples" are '
+                          'exhaustive over the zoo, not over the property\'s quantifier.')
+CHECKS['C05']['text'] = (
+    '27 theorems (arbitrary field with ring involution, all sizes, weights, depths): adj_sound / adj_identity for trees of '
+    'OperatorSum, OperatorComp, Left/RightScalarMult with arbitrary field scalars (following the repaired code: conj(s) applied '
+    'before the operator adjoint when it is not real), Left/RightVectorMult, FunctionalLeftVectorMult; block operators on '
+    'UNWEIGHTED product spaces only; trees through real and complex spaces get the real-part identity only; for `opaque` leaves '
+    'the statement is conditional on their contract. Leaf contracts proved under Leaf.WT: Scaling/Identity/Zero, Multiply '
+    '(domain = range, field domain), InnerProduct, RealPart/ImagPart/ComplexEmbedding, MatrixOperator (1-d, const or array '
+    'weights), PointwiseInner/Adjoint/Sum, Sampling<->WeightedSumSampling (1-d), Flattening (C order) and inverse, '
+    'ComponentProjection(Adjoint). adj_type_tree, leaf_typed; adj_adj_partial CONDITIONAL on a leaf hypothesis that leaf_adj_adj '
+    'discharges for 10 leaf kinds; sensitivity: old_matrix_adj_fails, old_lscal_adj_fails. Decided by the exact full-matrix oracle '
+    'only (no theorem): finite differences, resizing, wavelets, Fourier, MatrixOperator with axis/sparse/n-d, F-order flattening, '
+    'n-d sampling. For FourierTransform, DFT and db2 wavelets the check establishes only that the returned adjoint is exactly the '
+    'inverse (open F57-F59); open F7 (n-d array weighting / custom inner), F56, F60, F61.')
+CHECKS['C06']['text'] = (
+    '15 theorems. Unconditional, about the EXECUTED model Impl (all trees, depths, dimensions): deriv_sound_poly (dual-number '
+    'soundness of derivative for every expression class, Broadcast/Reduction/Diagonal/ProductSpaceOperator, polynomial leaves, '
+    'ComplexModulusSquared/RealPart/ImagPart/ComplexEmbedding and complex scalars on cn(n) read as flat [re, im]), '
+    'deriv_is_linear, flagged_linear_is_linear, deriv_linear, deriv_affine, central_diff_poly_partial (O(h^2) cancellation in the '
+    'polynomial world), model_line_hasDerivAt and model_central_diff_tendsto (over R every entry of op(x+sd) is differentiable at 0 '
+    'with derivative derivative(x)(d): Gateaux form; HasFDerivAt on R^n not formalised). Both EXTRACTED ufunc (f,f\') tables '
+    '(derivative_factory, gradient_factory) proved against Mathlib (ufunc_table_sound, ufunc_gradient_table_sound) and lifted '
+    '(ufunc_op_hasFDerivAt); their Float reading is compared with the code\'s values. Four theorems about a separately transcribed, '
+    'UN-EXECUTED rule set (endomorphism trees on one normed algebra, six smooth ufuncs): rules_sound_of_leaf_hyps and '
+    'central_diff_tendsto_of_leaf_hyps are conditional on leaf hypotheses; ufunc_leaves_ok and the smooth-ufunc tree theorem '
+    'discharge them. Oracle only (central differences with Richardson agreement and decay test): Norm, Dist, ComplexModulus, '
+    'PointwiseNorm, ufunc operators inside trees, finite differences, ResizingOperator, functionals other than InnerProduct and '
+    'L2NormSquared.')
+
 NOT_YET = {}
 
 
